@@ -61,7 +61,7 @@ pub static INFO: PropInfo = PropInfo {
 };
 
 pub fn run(ctx: &Ctx, out: &mut Outcome) {
-    super::run_loop(ctx, out, 9600, 400_000, 19, one_run);
+    super::run_loop(ctx, out, 16_000, 400_000, 19, one_run);
 }
 
 struct Ledger {
